@@ -41,4 +41,25 @@ theorem C05_finalize_event (cfg : Cfg) (uid : Nat) (c : Conn) (t : Tx)
   · simp [eventOf, ht, hp.1]
   · simp [eventOf, ht, hp.2]
 
+/-- **C05 (request-complete is guarded)**: for a transaction whose request side is already COMPLETE, htp_tx_state_request_complete runs
+    neither the end-of-body delivery nor the REQUEST_COMPLETE callback again: it only moves the request side on and tries to finalize. -/
+theorem C05_request_complete_guard (cfg : Cfg) (uid : Nat) (c : Conn) (t : Tx)
+    (ht : c.findTx uid = some t) (hp : t.reqProgress = 5) :
+    txStateRequestComplete cfg uid c =
+      (let c1 := { c with inState := if t.is09 then ReqState.ignoreDataAfter09 else ReqState.idle }
+       ({ (txFinalize cfg uid c1).1 with inn := { (txFinalize cfg uid c1).1.inn with tx := none } }, Rc.ok)) := by
+  unfold txStateRequestComplete
+  simp [ht, hp, R.andThen]
+
+/-- **C05 (response-complete is guarded)**: for a transaction whose response side is already COMPLETE, htp_tx_state_response_complete_ex
+    delivers neither the end-of-body marker nor RESPONSE_COMPLETE again. -/
+theorem C05_response_complete_guard (cfg : Cfg) (uid : Nat) (c : Conn) (t : Tx)
+    (ht : c.findTx uid = some t) (hp : t.resProgress = 5) :
+    txStateResponseCompleteEx cfg uid c =
+      (if c.inn.status == STREAM_DATA_OTHER && c.inn.tx == c.out.tx then (c, Rc.dataOther) else
+       if c.outDataOtherAtTxEnd then ({ c with outDataOtherAtTxEnd := false }, Rc.dataOther) else
+       txFinalize cfg uid c >>? fun c => ({ c with out := { c.out with tx := none }, outState := ResState.idle }, Rc.ok)) := by
+  unfold txStateResponseCompleteEx
+  simp [ht, hp, R.andThen]
+
 end Htp.C05
